@@ -807,9 +807,9 @@ func (s *Fn) entailsD(fs, dq []Lin, goal Lin, depth int) bool {
 type retCase struct {
 	facts     []Lin
 	rets      []*Lin // per result: int value or len of slice/string result (nil: other type)
-	ret       *Lin  // int value or len of slice result (single result only)
-	boolConst *bool // for bool results
-	trueFacts []Lin // for bool results: facts implied by the returned condition being true
+	ret       *Lin   // int value or len of slice result (single result only)
+	boolConst *bool  // for bool results
+	trueFacts []Lin  // for bool results: facts implied by the returned condition being true
 }
 
 func (e *Engine) returnCases(f *ssa.Function) []retCase {
